@@ -15,7 +15,8 @@ ITEMS = {"kids_items": 13, "m_items": 14, "s_items": 15}
 
 
 def run_case(case):
-    w = base.World(case["npool"], bool(case.get("falsy")))
+    w = base.World(case["npool"], bool(case.get("falsy")), bool(case.get("eqcls")), set(case.get("dictkind") or ()))
+    hetero = bool(case.get("dictkind"))
     root = w.pool[case["root"]]
     lcalls, ocalls = [], []
 
@@ -49,7 +50,7 @@ def run_case(case):
 
     expr = None
     for g in case["graphs"]:
-        e = base.build_expr(g)
+        e = base.build_expr(g, hetero)
         expr = e if expr is None else (expr | e)
     hist = []
     prev_heap = None
